@@ -25,19 +25,21 @@ RULE = (
     "> number of k-mers) built by from_sequences/from_kmers/from_kmer_selection/from_positions/from_tables "
     "and re-read through pickle; queries are mutated copies of the references.  Strata: table_build, match, "
     "similarity (ScoreThresholdRule over random symmetric matrices/thresholds), invalid (too short, wrong "
-    "masks, foreign alphabets, invalid codes: must raise and leave tables unchanged), selectors, big_codes "
+    "masks, foreign alphabets, invalid codes: must raise and leave tables unchanged), selectors (Minimizer/"
+    "Syncmer/CachedSyncmer/Mincode, windows 2-12, s < k, offsets incl. negative, no/Random/Frequency/"
+    "user-defined table permutation, lengths around window+span-1, select and select_from_kmers), big_codes "
     "(BucketKmerTable with k-mer codes >= 2^32).  A case is non-trivial when the reference multimap holds a "
     "repeated k-mer and at least two distinct k-mers (tables), at least one but not every candidate matched "
     "(match), a proper non-empty subset was selected (selectors) or an exception was provoked (invalid); "
     "distinct = distinct digest of the logged inputs."
 )
 STRATA = {
-    "table_build": (7000, 120000),
-    "match": (7000, 120000),
-    "similarity": (2500, 40000),
-    "invalid": (3000, 45000),
-    "selectors": (4500, 70000),
-    "big_codes": (1500, 25000),
+    "table_build": (5000, 120000),
+    "match": (5000, 120000),
+    "similarity": (1800, 40000),
+    "invalid": (2200, 45000),
+    "selectors": (3200, 70000),
+    "big_codes": (1000, 25000),
 }
 REQUIRED_ORACLES = [
     "create_kmers_vs_naive", "get_kmers_vs_model", "count_vs_model", "lookup_vs_model",
@@ -52,6 +54,8 @@ ASSUMPTIONS = [
     "== is judged only where the statement decides it: identical construction and pickle copy must be equal, a different multimap must be unequal; same multimap in another insertion order is counted, not judged",
     "k-mer alphabets are limited to n^k < 2^63; ref ids and positions to the uint32 range",
     "MincodeSelector: a permuted code within float64 rounding of the threshold is undecided (counted)",
+    "a user-defined Permutation (injective int64 table, extremes included) is part of 'all permutations'; its INT64_MAX key is a quarantined trigger class",
+    "invalid inputs (negative k-mer code, n_buckets=0, masks of wrong length) must be rejected with an exception, not crash: memory-safety clause of the property",
     "BucketKmerTable is documented as not iterable: iteration/contains are judged for KmerTable only",
 ]
 MIN_CASES_PER_WORKER = 40
@@ -83,6 +87,33 @@ def setup(ctx):
     seq, align = seq_, align_
     KmerTable, BucketKmerTable, KmerAlphabet = align.KmerTable, align.BucketKmerTable, align.KmerAlphabet
     AlphabetError = AE
+    _make_table_permutation()
+
+
+TablePermutation = None
+I64MIN, I64MAX = -(1 << 63), (1 << 63) - 1
+
+
+def _make_table_permutation():
+    """A user-defined Permutation (the abstract contract allows any injective int64 sort key)."""
+    global TablePermutation
+
+    class _TablePermutation(align.Permutation):
+        def __init__(self, keys):
+            self._keys = np.array(keys, dtype=np.int64)
+
+        @property
+        def min(self):
+            return I64MIN
+
+        @property
+        def max(self):
+            return I64MAX
+
+        def permute(self, kmers):
+            return self._keys[kmers]
+
+    TablePermutation = _TablePermutation
 
 
 # ====================================================================== models
@@ -800,6 +831,15 @@ def check_eq_and_pickle(ctx, rng, w, built, kind):
     check_table(ctx, rng, w, p, model, kind, deep=False)
     if p.kmer_alphabet != t.kmer_alphabet:
         ctx.fail("pickle_roundtrip", "kmer_alphabet differs after pickling")
+    if t.k != w.k or not (t.kmer_alphabet == w.kalph) or t.alphabet != w.alph:
+        ctx.fail("eq_vs_model", "k / kmer_alphabet / alphabet attributes differ from the construction arguments")
+    if rng.random() < 0.3:
+        import copy
+        ctx.op("deepcopy:" + kind)
+        c = copy.deepcopy(t) if rng.random() < 0.5 else copy.copy(t)
+        if not (c == t) or c is t:
+            ctx.fail("pickle_roundtrip", "copy of the table is not an equal, distinct table")
+        check_table(ctx, rng, w, c, model, kind, deep=False)
     # a different multimap must compare unequal
     m2, how = perturb(rng, w, model)
     if model_key(m2) != model_key(model):
@@ -1256,9 +1296,19 @@ def case_invalid(rng, ctx):
 # ---------------------------------------------------------------------- selectors
 def gen_perm(ctx, rng, n, k_eff, kalph, ka):
     """-> (biotite Permutation | None, code -> sort key, name, (min, max) | None)"""
-    how = pick(rng, ["none", "random", "random", "freq", "freq_table"])
-    if how == "none" or (how.startswith("freq") and ka.size > 20000):
+    how = pick(rng, ["none", "random", "random", "freq", "freq_table", "custom"])
+    if how == "none" or (how != "random" and ka.size > 20000):
         return None, (lambda c: c), "none", None
+    if how == "custom":
+        special = [I64MIN, I64MIN + 1, -1, 0, 1, I64MAX - 1] + ([I64MAX] if ctx.allowed("sort_key_int64_max") else [])
+        keys = set(special[:ka.size] if rng.random() < 0.7 else [])
+        mode = pick(rng, ["wide", "narrow"])
+        while len(keys) < ka.size:
+            keys.add(int(rng.integers(I64MIN, I64MAX)) if mode == "wide" else int(rng.integers(-ka.size, ka.size + 1)))
+        keys = [int(x) for x in rng.permutation(np.array(sorted(keys), dtype=object))]
+        ctx.log("perm_keys", keys if len(keys) <= 130 else {"head": keys[:130], "n": len(keys)})
+        ctx.op("TablePermutation")
+        return TablePermutation(keys), (lambda c: keys[c]), "custom", (I64MIN, I64MAX)
     if how == "random":
         ctx.op("RandomPermutation")
         return align.RandomPermutation(), perm_random, "random", (-(1 << 63), (1 << 63) - 1)
@@ -1753,6 +1803,20 @@ def _probe_mincode_mask(ctx):
     KmerTable.from_kmer_selection(w.kalph, [pos], [km])
 
 
+def _probe_sort_key_max(ctx):
+    """A sort key equal to INT64_MAX at the first position of a chunk (user-defined Permutation)."""
+    w = _probe_world(ctx, 2, 3, None, None)
+    keys = [5, 1, 9, I64MAX, 7, 8, 3, 2]
+    perm = TablePermutation(keys)
+    kmers = [1, 0, 2, 3, 4, 5]
+    for window in (3, 2):
+        ctx.log("minimizer", {"window": window, "keys": keys, "kmers": kmers})
+        ctx.op("MinimizerSelector.select_from_kmers")
+        pos, km = align.MinimizerSelector(w.kalph, window, perm).select_from_kmers(np.array(kmers, dtype=np.int64))
+        compare_selection(ctx, "minimizer_vs_definition", pos, km, naive_minimizers([keys[c] for c in kmers], window), kmers,
+                          "minimizers with sort key INT64_MAX")
+
+
 PROBES = {
     "spaced_kmers_with_ignore_mask": _probe_spaced_mask,
     "bucket_lookup_code_ge_2_32": _probe_bucket_lookup,
@@ -1761,4 +1825,5 @@ PROBES = {
     "from_kmers_short_mask": _probe_short_kmer_mask,
     "noncontiguous_ignore_mask": _probe_strided_mask,
     "mincode_positions_are_mask": _probe_mincode_mask,
+    "sort_key_int64_max": _probe_sort_key_max,
 }
